@@ -12,6 +12,7 @@ import (
 	"google.golang.org/protobuf/proto"
 	"pgregory.net/rapid"
 
+	"verif/harness/internal/adv/kefake"
 	"verif/harness/internal/ev"
 )
 
@@ -121,6 +122,7 @@ type c03world struct {
 	fp      *forgedPeer    // attacker's handshake that H accepted a hello from (nil if none)
 	last    *forgedPeer    // attacker's most recent attempt (used when none was accepted)
 	advanced bool          // set by deliverToH when H's handshake state moved
+	twin    *kefake.Peer   // adversary's twin-hello handshake with H
 	fpCB    []byte         // channel binding the attacker's next signature must cover
 	hOut    [][]byte       // messages emitted by H
 	vpOut   [][]byte       // messages emitted by Vp
@@ -338,6 +340,51 @@ func TestC03Forgery(t *testing.T) {
 				}
 				if p != "" {
 					fail(p)
+				}
+			},
+			"twinHello": func(t *rapid.T) {
+				// The adversary sends the byte-identical InitHello (victim's lifted claim, its own ephemeral) to a
+				// genuine responder session of the victim and to H, and carries the victim's RespHello signature
+				// over to H inside InitDone.
+				if w.hInit || w.twin != nil {
+					t.Skip("needs a responder H, once")
+				}
+				p1, p2 := kefake.NewTwinPeers(true, byte(rapid.IntRange(1, 200).Draw(t, "ephemeralSeed")))
+				hello1 := p1.InitHello(hv.vInitHelloTS, kefake.MarshalKey(idV), hv.vInitHelloSig)
+				hello2 := p2.InitHello(hv.vInitHelloTS, kefake.MarshalKey(idV), hv.vInitHelloSig)
+				if !bytes.Equal(hello1, hello2) {
+					t.Fatalf("harness: twin hellos differ")
+				}
+				vResp := newSession(idV, false, tBase)
+				_, vrh, err := vResp.Deliver(nil, hello2, tBase)
+				if err != nil || len(vrh) == 0 {
+					t.Skip("the victim did not answer the twin hello")
+				}
+				sig, _, ok := p2.RespHelloSig(vrh)
+				if !ok {
+					t.Skip("cannot read the victim's RespHello")
+				}
+				w.kinds["twin hello: victim's RespHello signature for the same InitHello"] = true
+				nOut := len(w.hOut)
+				p := w.deliverToH("twin InitHello claimed=V", hello1)
+				if w.advanced && len(w.hOut) > nOut {
+					if _, ok := p1.ReadRespHello(w.hOut[len(w.hOut)-1]); ok {
+						w.twin = p1
+						w.forgedParsed++
+						w.mSigned = false
+						w.fp = nil
+					}
+				}
+				if p != "" {
+					fail(p)
+				}
+				if w.twin != nil {
+					if p := w.deliverToH("twin InitDone sig=victim's RespHello signature (same hello)", w.twin.InitDone(sig)); p != "" {
+						fail(p)
+					}
+					if p := w.deliverToH("twin data", w.twin.Data([]byte("attacker-data-0123456789"))); p != "" {
+						fail(p)
+					}
 				}
 			},
 			"forgeDone": func(t *rapid.T) {
